@@ -19,7 +19,8 @@ EXPLANATION = (
     ".fft, block.to_file/FilReader) agrees on headered-vs-raw layout and on the element type view; (R3) prep_outfile gives "
     "the writer and the encoded header the same depth, and no call site declares one depth in `updates` and writes "
     "another; (R4) the reader infers the sample count as floor(8*datalen/nbits/nchans); (R5) the .inf writer and reader "
-    "iterate the same presto_inf table, which carries tstart, tsamp and dm, and every key it names exists. Not decided: "
+    "iterate the same presto_inf table, which carries tstart, tsamp and dm, and every key it names exists; (R6) the SIGPROC "
+    "writer and reader pack/unpack sub-byte samples with the same (stream) depth and bit order. Not decided: "
     "bit-identity of values and metadata precision."
 )
 FILEIO = "sigpyproc.io.fileio"
@@ -170,6 +171,26 @@ def run(prog: Program, res: Result, tier: str) -> None:
     else:
         res.bad("R2", tf, tf.node, "block layout written by to_file and read by read_block do not agree", construct=key, key=key)
 
+    # ---- R6 bit-order / depth pairing of the SIGPROC writer and reader (shared with C03.R5) ---------------
+    sites = []
+    for f in prog.module(FILEIO).funcs.values():
+        for c in calls_in_body(f.node):
+            if dotted(c.func) in ("unpack", "pack"):
+                kw = {k.arg: k.value for k in c.keywords}
+                nb = c.args[1] if len(c.args) > 1 else kw.get("nbits")
+                sites.append((f, c, norm(nb) if nb is not None else None, norm(kw["bitorder"]) if "bitorder" in kw else None))
+    writers = [x for x in sites if dotted(x[1].func) == "pack"]
+    readers = [x for x in sites if dotted(x[1].func) == "unpack"]
+    if not writers or not readers:
+        raise AnalysisError("fileio: pack/unpack call sites not found")
+    for f, c, nb, bo in sites:
+        key = f"bitorder:{f.qualname}:{dotted(c.func)}"
+        if nb == "self.bitsinfo.nbits" and bo == "self.bitsinfo.bitorder":
+            res.ok("R6", f, c, "sub-byte samples are (un)packed with the stream's own depth and bit order", key=key)
+        else:
+            res.bad("R6", f, c, f"{dotted(c.func)} is called with nbits={nb}, bitorder={bo or '<default big>'}: the writer and the reader no longer agree "
+                    f"on the bit order for every depth (1-bit SIGPROC data is little-endian), so packed samples read back permuted", key=key)
+
     # ---- R3 depth agreement ----------------------------------------------------------------------
     prep = prog.func(HEADER, "Header.prep_outfile")
     fl = flow_of(prep)
@@ -288,7 +309,8 @@ def run(prog: Program, res: Result, tier: str) -> None:
         res.bad("R5", rd, rd.node, f"from_inffile cannot supply required Header fields {miss}", construct="from_inffile", key=key)
     else:
         res.ok("R5", rd, rd.node, f"from_inffile supplies all {len(required)} required Header fields", construct="from_inffile", key=key)
-    res.floor("R1", 2)
+    res.floor("R1", 1)
+    res.floor("R6", 3)
     res.floor("R2", 5)
     res.floor("R3", 13)
     res.floor("R4", 2)
@@ -329,6 +351,12 @@ MUTANTS = [
     {"id": "c04-quantize-keeps-int32", "file": "sigpyproc/io/bits.py", "expect": "C04.R1",
      "edits": [{"file": "sigpyproc/io/bits.py", "old": "        return arr.astype(self.dtype, copy=False)", "new": "        return arr"},
                {"file": F, "old": "        arr = np.asarray(arr).astype(self.bitsinfo.dtype, copy=False)\n", "new": ""}]},
+]
+MUTANTS += [
+    {"id": "c04-writer-default-bitorder", "file": F, "expect": "C04.R6",
+     "old": "            packed = pack(arr, self.bitsinfo.nbits, bitorder=self.bitsinfo.bitorder)", "new": "            packed = pack(arr, self.bitsinfo.nbits)"},
+    {"id": "c04-reader-big", "file": F, "expect": "C04.R6",
+     "old": "            return unpack(data_ar, self.bitsinfo.nbits, bitorder=self.bitsinfo.bitorder)", "new": "            return unpack(data_ar, self.bitsinfo.nbits, bitorder=\"big\")"},
 ]
 TWINS = [
     {"id": "c04-twin-guard-form", "file": F,
